@@ -101,3 +101,39 @@ INIT_INVALID = [
     ("ValueError", BAD_EXAMPLES)]
 contract(SH + ".__init__", params=PARAM_T, raises=INIT_INVALID, modifies=["*"], props=["C20"], cover=True,
     note="raises ValueError iff the reference predicate of the statement holds; every other combination returns normally")
+
+# ---- call-time checks of shex_graph / profile_graph -------------------------------------------------------------
+FIELDS.update({"_target_classes_dict": Opt(Int), "_profile": Opt(Int), "_shape_list": Opt(Int)})
+SerT = schema("ShapeSerializer", ["shexer.io.shex.formater.shex_serializer:ShexSerializer",
+                                  "shexer.io.shacl.formater.shacl_serializer:ShaclSerializer"], {})
+PIPE = dict(assume_only=True, verify=False, modifies=["*"],
+            note="pipeline stage abstracted here (exception-freedom is C04's subject, content C01-C19's)")
+contract(SH + "._launch_instance_tracker", params={}, **PIPE)
+contract(SH + "._launch_class_profiler", params={}, **PIPE)
+contract(SH + "._launch_class_shexer", params={"acceptance_threshold": Real}, **PIPE)
+contract(SH + "._generate_uml_diagram", params={"to_uml_path": O}, raises=[("ResourceWarning", "?True")], **PIPE)
+contract(SH + "._build_shapes_serializer", params={"target_file": O, "string_return": Bool, "output_format": Str},
+         returns=SerT, **PIPE)
+contract("shexer.io.shex.formater.shex_serializer:ShexSerializer.serialize_shapes", params={}, returns=O, **PIPE)
+contract("shexer.io.shacl.formater.shacl_serializer:ShaclSerializer.serialize_shapes", params={}, returns=O, **PIPE)
+
+SHEX_INVALID = [
+    ("ValueError", "(not string_output) and output_file is None and to_uml_path is None"),
+    ("ValueError", "not (output_format == 'ShEx' or output_format == 'Shacl')"),
+    ("ValueError", "acceptance_threshold < 0 or acceptance_threshold > 1")]
+contract(SH + ".shex_graph",
+    params={"string_output": Bool, "output_file": O, "output_format": Str, "acceptance_threshold": Real, "to_uml_path": O},
+    returns=O, raises=SHEX_INVALID, modifies=["*"], props=["C20", "C04"],
+    note="ValueError iff no sink / unknown format / threshold outside [0,1]; call shapes of the three checks")
+contract(SH + ".profile_graph", params={"string_output": Bool, "output_file": O}, returns=O,
+    raises=[("ValueError", "(not string_output) and output_file is None")], modifies=["*"], props=["C04"],
+    note="call shape of _check_correct_output_params (3 parameters) at this call site")
+contract("shexer.io.profile.formater.abstract_profile_serializer:AbstractProfileSerializer.__init__@assumed", params={}, verify=False)
+
+# ---- must-fail canaries: deliberately wrong reference predicates that the verifier has to refute ------------------
+contract(SH + "._check_compression_mode@canary",
+    params={"compression_mode": O, "url_endpoint": O, "url_graph_input": O, "list_of_url_input": O},
+    raises=[("ValueError", "(%s) or (compression_mode is not None and (url_endpoint is not None or url_graph_input is not None))" % BAD_COMPRESSION)],
+    props=["C20"], canary=True, note="wrong constant variant: forgets list_of_url_input")
+contract(SH + "._check_aceptance_threshold@canary", params={"aceptance_threshold": Real},
+    raises=[("ValueError", "aceptance_threshold <= 0 or aceptance_threshold > 1")], props=["C20"], canary=True)
